@@ -434,7 +434,7 @@ theorem block_output_meets (ans : Nat → LayoutInput Rat → LayoutOutput Rat) 
   rw [styleTree_node]
   refine ⟨?_, ?_, ?_, ?_⟩
   · rw [hfl]; simp only [collapsesThrough]
-  · simp only [innerOutput, hstart, hmt, topSet, Tree.box, sbox_marginTop]
+  · simp only [innerOutput, hstart, topSet, Tree.box, sbox_marginTop]
     cases (sbox s ctx Layout.new).topOpen with
     | true =>
       simp only [if_true]
@@ -443,8 +443,8 @@ theorem block_output_meets (ans : Nat → LayoutInput Rat → LayoutOutput Rat) 
       rw [toSet_cons]
     | false =>
       simp only [Bool.false_eq_true, if_false]
-      exact fromMargin_cwm _
-  · simp only [innerOutput, hend, hmb, bottomSet, Tree.box, sbox_marginBottom]
+      exact (toSet_single _).symm
+  · simp only [innerOutput, hend, bottomSet, Tree.box, sbox_marginBottom]
     cases (sbox s ctx Layout.new).bottomOpen with
     | true =>
       simp only [if_true]
@@ -453,7 +453,7 @@ theorem block_output_meets (ans : Nat → LayoutInput Rat → LayoutOutput Rat) 
       rw [toSet_cons]
     | false =>
       simp only [Bool.false_eq_true, if_false]
-      exact fromMargin_cwm _
+      exact (toSet_single _).symm
   · intro hflag
     simp only [innerOutput, Bool.and_eq_true, rat_feq, decide_eq_true_eq] at hflag
     exact hflag.2
